@@ -437,3 +437,180 @@ Theorem C16_v4_flags_under_concurrent_first_reads :
    KV.Model.LazyInit.ncomp (KV.Model.LazyInit.c_sh c) = 1%nat).
 Proof. exact flags_first_reads_safe. Qed.
 Print Assumptions C16_v4_flags_under_concurrent_first_reads.
+
+(* ======== round 4: the argument of select(flags=...), the marking loop of the setters, flag tables of the file ======== *)
+From KV Require Model.FlagsArg Proofs.FlagsArgP.
+Import KV.Model.FlagsSel KV.Model.FlagsArg.
+
+(* What the translator read at this run: _selection_to_list splits at "," and strips EVERY field on both sides (hence
+   also the two ends of the whole string), the three setters hand their known names in as the group "all", the
+   ValueError of an unknown name is handled PER NAME in all three setters (the loop goes on with the next name), and
+   the flag table of a v3 / v2 file is decoded to str. *)
+Theorem C16_argument_parsing_sources :
+  sel_to_list_strip = "strip"%string /\ sel_to_list_sep = ","%string
+  /\ flag_setter_group_key = [("v4", "all"); ("v3", "all"); ("v2", "all")]%string
+  /\ flag_setter_loop = [("v4", "per_name"); ("v3", "per_name"); ("v2", "per_name")]%string
+  /\ h5_flag_table_decoded = [("v3", true); ("v2", true)]%string.
+Proof. exact KV.Proofs.FlagsArgP.arg_sources. Qed.
+Print Assumptions C16_argument_parsing_sources.
+
+(* The setter assembled from those constants (separator, strip method, group key, loop shape, bit flip - all
+   regenerated) IS the setter every theorem above speaks about, for every format, table and argument; it warns about
+   the same names. *)
+Theorem C16_setter_from_source_refines_model : forall known f a,
+  mk_mask_src known f a = mk_mask known f a
+  /\ selection_to_list_src (group_key f) a known = selection_to_list a known
+  /\ warned_src flag_names f a = unknown_names flag_names a.
+Proof.
+  intros. split; [apply KV.Proofs.FlagsArgP.mk_mask_src_eq|].
+  split; [apply KV.Proofs.FlagsArgP.selection_to_list_src_eq|apply KV.Proofs.FlagsArgP.warned_src_eq].
+Qed.
+Print Assumptions C16_setter_from_source_refines_model.
+
+(* ANY table of 8 distinct names (flags.NAMES, or the flags_description of the file), any format, any argument: the
+   mask is exactly the sum of the bits of the names of the table that are requested - bit i for the i-th name (v3,
+   v4), bit 7-i (v2) -, it is a byte, and bit by bit: bit (i | 7-i) is set iff the i-th name is requested. *)
+Theorem C16_mask_of_any_table : forall known f a, NoDup known -> List.length known = 8%nat ->
+  mk_mask known f a = table_mask f known (table_wanted known a)
+  /\ 0 <= mk_mask known f a < 256
+  /\ forall i, (i < 8)%nat ->
+       Z.testbit (mk_mask known f a) (bitpos f i) = mem_string (nth i known ""%string) (table_wanted known a).
+Proof.
+  intros known f a ND L8. split; [exact (KV.Proofs.FlagsArgP.mk_mask_table_arg known f a ND L8)|].
+  split; [apply KV.Proofs.FlagsArgP.mk_mask_range_any|].
+  intros i Hi. rewrite (KV.Proofs.FlagsArgP.mk_mask_table_arg known f a ND L8).
+  apply KV.Proofs.FlagsArgP.table_mask_testbit. exact Hi.
+Qed.
+Print Assumptions C16_mask_of_any_table.
+
+(* for the default table this is the documented-bit spec of the theorems above *)
+Theorem C16_default_table_is_documented : forall f a,
+  table_mask f flag_names (table_wanted flag_names a) = spec_fmt_mask f a.
+Proof. exact KV.Proofs.FlagsArgP.table_mask_default. Qed.
+Print Assumptions C16_default_table_is_documented.
+
+(* The mask depends ONLY on which names of the table occur in the request: two requests that contain the same names
+   of the table give the same mask - whatever else they contain, in whatever order, however often. *)
+Theorem C16_mask_depends_on_requested_known_names_only : forall known f l1 l2,
+  NoDup known -> List.length known = 8%nat ->
+  (forall n, In n known -> (In n l1 <-> In n l2)) ->
+  mk_mask known f (SelList l1) = mk_mask known f (SelList l2).
+Proof. exact KV.Proofs.FlagsArgP.mask_known_names_only. Qed.
+Print Assumptions C16_mask_depends_on_requested_known_names_only.
+
+(* An unknown name is ignored at EVERY position of the request: the names before it and the names after it count. *)
+Theorem C16_unknown_ignored_at_any_position : forall known f l1 u l2,
+  NoDup known -> List.length known = 8%nat -> ~ In u known ->
+  mk_mask known f (SelList (l1 ++ u :: l2)) = mk_mask known f (SelList (l1 ++ l2)).
+Proof. exact KV.Proofs.FlagsArgP.unknown_ignored_anywhere. Qed.
+Print Assumptions C16_unknown_ignored_at_any_position.
+
+Theorem C16_order_and_repetition_irrelevant : forall known f l1 l2,
+  NoDup known -> List.length known = 8%nat ->
+  mk_mask known f (SelList (l1 ++ l2)) = mk_mask known f (SelList (l2 ++ l1))
+  /\ mk_mask known f (SelList (l1 ++ l1)) = mk_mask known f (SelList l1)
+  /\ mk_mask known f (SelList (rev l1)) = mk_mask known f (SelList l1).
+Proof. exact KV.Proofs.FlagsArgP.mask_order_irrelevant. Qed.
+Print Assumptions C16_order_and_repetition_irrelevant.
+
+(* The two shapes of the marking loop: with the handler around the whole loop the request is cut at its first unknown
+   name (everything behind it is silently dropped); without unknown names the shapes agree - which is why only a request
+   with an unknown name IN FRONT OF a known one tells them apart. *)
+Theorem C16_handler_around_the_loop_would_drop_names : forall known f l1 u l2,
+  (forall n, In n l1 -> In n known) -> ~ In u known ->
+  mk_mask_shape "whole_loop" known f (l1 ++ u :: l2) = mk_mask known f (SelList l1)
+  /\ forall shape, mk_mask_shape shape known f l1 = mk_mask known f (SelList l1).
+Proof.
+  intros known f l1 u l2 H Hu. split; [exact (KV.Proofs.FlagsArgP.whole_loop_stops known f l1 u l2 H Hu)|].
+  intro shape. exact (KV.Proofs.FlagsArgP.shapes_agree_without_unknown shape known f l1 H).
+Qed.
+Print Assumptions C16_handler_around_the_loop_would_drop_names.
+
+Theorem C16_loop_shape_example :
+  mk_mask_shape "whole_loop" flag_names FV3 ["static"; "bogus"; "cam"]%string = 2
+  /\ mk_mask_shape "per_name" flag_names FV3 ["static"; "bogus"; "cam"]%string = 6
+  /\ mk_mask_src flag_names FV3 (SelStr "static,bogus,cam") = 6
+  /\ mk_mask_shape "whole_loop" flag_names FV2 ["bogus"; "cam"]%string = 0
+  /\ mk_mask_src flag_names FV2 (SelList ["bogus"; "cam"]%string) = 32.
+Proof. exact KV.Proofs.FlagsArgP.whole_loop_would_drop_names. Qed.
+Print Assumptions C16_loop_shape_example.
+
+(* A comma-separated string whose fields carry ANY white space on either side - in front of the first field and behind
+   the last one included: ' cam', 'static,cam\n' - selects exactly what the list of its names selects (names as a user
+   means them: no comma inside, no white space at either end; the string as a whole neither empty nor the word 'all'). *)
+Theorem C16_string_selection_white_space : forall known f (fields : list field),
+  fields <> [] -> forallb field_ok fields = true ->
+  let s := join_comma (map field_text fields) in
+  s <> ""%string -> s <> "all"%string ->
+  selection_to_list (SelStr s) known = map field_name fields
+  /\ mk_mask known f (SelStr s) = mk_mask known f (SelList (map field_name fields)).
+Proof.
+  intros known f fields Hne Hok s H0 Hall. split.
+  - exact (KV.Proofs.FlagsArgP.string_selection_is_list fields known Hne Hok H0 Hall).
+  - exact (KV.Proofs.FlagsArgP.string_selection_mask known f fields Hne Hok H0 Hall).
+Qed.
+Print Assumptions C16_string_selection_white_space.
+
+Theorem C16_white_space_example :
+  selection_to_list (SelStr (join_comma (map field_text
+     [(" ", "static", ""); ("", "cam", String (Ascii.ascii_of_nat 10) "")]%string))) flag_names = ["static"; "cam"]%string
+  /\ join_comma (map field_text [(" ", "static", ""); ("", "cam", String (Ascii.ascii_of_nat 10) "")]%string)
+     = (" static,cam" ++ String (Ascii.ascii_of_nat 10) "")%string
+  /\ forallb field_ok [(" ", "static", ""); ("", "cam", String (Ascii.ascii_of_nat 10) "")]%string = true
+  /\ mk_mask flag_names FV3 (SelStr (" cam" ++ String (Ascii.ascii_of_nat 9) "")) = 4
+  /\ mk_mask flag_names FV2 (SelStr (String (Ascii.ascii_of_nat 10) "static , cam ")) = 96
+  /\ mk_mask flag_names FV4 (SelStr " all") = 0 /\ unknown_names flag_names (SelStr " all") = ["all"]%string.
+Proof. exact KV.Proofs.FlagsArgP.whitespace_nonvacuous. Qed.
+Print Assumptions C16_white_space_example.
+
+(* A v3 / v2 file that carries its OWN flag table (8 distinct names, in the order of the file): selecting by name
+   answers with exactly the bits of the requested names OF THAT TABLE in the bit order of the format, warns about
+   exactly the requested names the table does not have, and a table that does not have 8 rows is refused (never
+   answered wrongly). *)
+Theorem C16_file_table_selection : forall table f a, NoDup table -> List.length table = 8%nat ->
+  file_mask f table a = Some (table_mask f table (table_wanted table a))
+  /\ file_warned f table a
+     = List.length (filter (fun n => negb (mem_string n table)) (table_wanted table a)).
+Proof. intros table f a ND L8. exact (KV.Proofs.FlagsArgP.file_mask_table table ND L8 f a). Qed.
+Print Assumptions C16_file_table_selection.
+
+Theorem C16_file_table_wrong_length_refused : forall f table a,
+  List.length table <> 8%nat -> file_mask f table a = None.
+Proof. exact KV.Proofs.FlagsArgP.file_mask_wrong_length. Qed.
+Print Assumptions C16_file_table_wrong_length_refused.
+
+(* getter o setter = identity on every byte for ANY such table (what makes the read-back in select() harmless on a
+   file with its own table), and the getter names exactly the set bits *)
+Theorem C16_file_table_getter_setter_roundtrip : forall table f m,
+  NoDup table -> List.length table = 8%nat -> 0 <= m < 256 ->
+  mk_mask table f (SelList (keep_names table f m)) = m
+  /\ forall i, (i < 8)%nat -> mem_string (nth i table ""%string) (keep_names table f m) = Z.testbit m (bitpos f i).
+Proof.
+  intros table f m ND L8 Hm. split; [exact (KV.Proofs.FlagsArgP.roundtrip_table table f m ND L8 Hm)|].
+  intros i Hi. exact (KV.Proofs.FlagsArgP.getter_table table f m i ND L8 Hm Hi).
+Qed.
+Print Assumptions C16_file_table_getter_setter_roundtrip.
+
+(* ... so, under the faithful model of select() (self._selection, setter, read-back through the getter, guarded
+   setter), ONE data set on such a file shows after ANY history the mask of the last flags= argument, read against
+   the table of the file ('all' by default). *)
+Theorem C16_file_table_mask_after_history : forall table f (h : list kwpair),
+  NoDup table -> List.length table = 8%nat ->
+  p_fmt (file_run f table h) = f
+  /\ p_mask (file_run f table h)
+     = table_mask f table (table_wanted table (last_sel (map fst h) (SelStr "all")))
+  /\ 0 <= p_mask (file_run f table h) < 256.
+Proof. intros table f h ND L8. exact (KV.Proofs.FlagsArgP.file_history table ND L8 f h). Qed.
+Print Assumptions C16_file_table_mask_after_history.
+
+Theorem C16_file_table_example :
+  let kat7 := ["reserved0"; "static"; "cam"; "reserved3"; "detected_rfi"; "predicted_rfi"; "reserved6"; "reserved7"]%string in
+  file_mask FV2 kat7 (SelStr "detected_rfi, cam") = Some 40
+  /\ file_mask FV3 kat7 (SelStr "detected_rfi, cam") = Some 20
+  /\ file_mask FV3 kat7 (SelStr "ingest_rfi") = Some 0 /\ file_warned FV3 kat7 (SelStr "ingest_rfi,cam") = 1%nat
+  /\ file_mask FV3 kat7 (SelStr "all") = Some 255
+  /\ file_mask FV3 (tl kat7) (SelStr "all") = None
+  /\ p_mask (file_run FV2 kat7 [(Some (SelStr "static"), None); (None, None)]) = 64
+  /\ NoDup kat7.
+Proof. exact KV.Proofs.FlagsArgP.file_table_nonvacuous. Qed.
+Print Assumptions C16_file_table_example.
